@@ -63,6 +63,13 @@ def gen(rng, tier):
         cs.append(Case("precalc %s %s" % (hx(cpk), hx(ssk)), cls="precalc", meta={"pair": ("pre", i, 1)}))
         cs.append(Case("kx_client %s %s %s" % (hx(cpk), hx(csk), hx(spk)), cls="kx/client", meta={"pair": ("kx", i, 0)}))
         cs.append(Case("kx_server %s %s %s" % (hx(spk), hx(ssk), hx(cpk)), cls="kx/server", meta={"pair": ("kx", i, 1)}))
+    # the box precomputation (crypto_box_beforenm = HSalsa20 of the X25519 output) must be the exact scalar multiplication for
+    # peer keys OFF the prime-order subgroup as well (twist points, mixed-order points, non-canonical encodings)
+    for i in range(150 if tier == "quick" else 4000):
+        cs.append(Case("precalc %s %s" % (hx(rbytes(rng, 32)), hx(rbytes(rng, 32))), cls="precalc/arbitrary-point"))
+    for u in us:
+        for s in scalar_patterns(rng)[:: (12 if tier == "quick" else 2)]:
+            cs.append(Case("precalc %s %s" % (hx(u), hx(s)), cls="precalc/special-point"))
     for u in us:
         sk = rbytes(rng, 32)
         pk = refs.x25519_base(sk)
